@@ -1,0 +1,58 @@
+//go:build verif
+
+// Contracts for the deductive verifier under /verif (foxvc): the path walk
+// (properties C01, C08). Comments only.
+
+package fox
+
+//@ package fox
+
+//@ -- ---------------------------------------------------------------- node well-formedness (assumed for every node in the heap)
+//@ -- cnt(key, i) = number of '{' in key[:i] (each wildcard, {param} or *{catch-all}, has exactly one)
+//@ -- a fact about the specification function (by induction on j - i; not provable by the solver)
+//@ axiom cnt.mono: forall u string, i int, j int :: {cnt(u, i), cnt(u, j)} 0 <= i && i <= j ==> cnt(u, i) <= cnt(u, j)
+//@ pred paramWF(n *node, k int) = (n.params[k].end == -1 ==> k == len(n.params) - 1) && (n.params[k].end != -1 ==> 0 < n.params[k].end && n.params[k].end <= len(n.key) && cnt(n.key, n.params[k].end) == k + 1)
+//@ pred nodeWF(n *node) = len(n.childKeys) == len(n.children) && -1 <= n.paramChildIndex && n.paramChildIndex < len(n.children) && -1 <= n.wildcardChildIndex && n.wildcardChildIndex < len(n.children) && len(n.params) == cnt(n.key, len(n.key)) && len(n.params) <= 65535 && (forall i int :: {n.children[i]} 0 <= i && i < len(n.children) ==> n.children[i] != nil) && (forall k int :: {n.params[k]} 0 <= k && k < len(n.params) ==> paramWF(n, k)) && (len(n.children) == 0 ==> n.route != nil) && (forall p int :: {n.key[p]} 0 <= p && p < len(n.key) && n.key[p] == '*' && n.params[cnt(n.key, p)].end >= 0 ==> n.inode != nil) && (forall p int :: {n.key[p]} 0 <= p && p < len(n.key) && n.key[p] == '*' && n.params[cnt(n.key, p)].end == -1 ==> n.route != nil) && (forall p int :: {n.key[p]} 0 <= p && p < len(n.key) && n.key[p] == '*' ==> p + 1 < len(n.key) && n.key[p+1] == '{')
+//@ pred heapWF() = forall m *node :: {m.key} {m.children} {m.childKeys} {m.params} {m.paramChildIndex} {m.wildcardChildIndex} {m.inode} {m.route} m != nil ==> nodeWF(m)
+
+//@ func (*skippedNodes).pop props C01
+//@   requires n != nil && len(*n) > 0
+//@   modifies *n
+//@   ensures result == old((*n)[len(*n)-1]) && len(*n) == old(len(*n)) - 1 && (forall j int :: {(*n)[j]} 0 <= j && j < len(*n) ==> (*n)[j] == old((*n)[j]))
+
+//@ -- the stack of alternatives saved during the walk
+//@ pred stackOK(c *cTx, path string) = forall j int :: {(*c.skipNds)[j]} 0 <= j && j < len(*c.skipNds) ==> (*c.skipNds)[j].n != nil && 0 <= (*c.skipNds)[j].childIndex && (*c.skipNds)[j].childIndex < len((*c.skipNds)[j].n.children) && 0 <= (*c.skipNds)[j].pathIndex && (*c.skipNds)[j].pathIndex < len(path) && (*c.skipNds)[j].paramCnt <= len(*c.params) && (*c.skipNds)[j].paramCnt <= (*c.skipNds)[j].pathIndex
+//@ pred stackMono(c *cTx) = forall j int, k int :: {(*c.skipNds)[j], (*c.skipNds)[k]} 0 <= j && j <= k && k < len(*c.skipNds) ==> (*c.skipNds)[j].paramCnt <= (*c.skipNds)[k].paramCnt
+//@ pred stackTop(c *cTx, paramCnt uint32) = forall j int :: {(*c.skipNds)[j]} 0 <= j && j < len(*c.skipNds) ==> (*c.skipNds)[j].paramCnt <= paramCnt
+
+//@ func lookupByPath props C01
+//@   requires c != nil && c.params != nil && c.tsrParams != nil && c.skipNds != nil
+//@   requires safety-args: tree != nil && target != nil && c.params != c.tsrParams
+//@   -- every recorded parameter consumes at least one byte of the path, so the 32-bit parameter counter cannot wrap
+//@   requires safety-len: len(path) < 4294967295
+//@   requires safety-wf: heapWF()
+//@   modifies C[Params], C[skippedNodes], E[Param], E[skippedNode], released
+//@   assume-at after (*Pool).Get#1 : pool-discipline: dyntypeIs(call_result, *cTx) && ctxOf(call_result) != nil && ctxOf(call_result) != c && ctxOf(call_result).params != nil && ctxOf(call_result).tsrParams != nil && ctxOf(call_result).skipNds != nil && ctxOf(call_result).params != ctxOf(call_result).tsrParams && ctxOf(call_result).params != c.params && ctxOf(call_result).params != c.tsrParams && ctxOf(call_result).tsrParams != c.params && ctxOf(call_result).tsrParams != c.tsrParams && ctxOf(call_result).skipNds != c.skipNds
+//@   -- assumed: a walk on another pooled context leaves this context's buffers alone (the pool never hands out a context in use)
+//@   assume-at after lookupByPath#1 : sub-walk-frame: stackOK(c, path) && stackMono(c) && stackTop(c, paramCnt) && paramCnt <= len(*c.params) && paramCnt <= charsMatched
+//@   ensures tsr-node: result1 ==> result0 != nil
+//@   ensures leaf: result0 != nil ==> result0.route != nil
+//@   loop 1: invariant current != nil && 0 <= charsMatched && charsMatched <= len(path) && (charsMatched < len(path) ==> paramKeyCnt == 0) && paramCnt <= len(*c.params)
+//@   loop 1: invariant at-end: charsMatched == len(path) ==> 0 <= charsMatchedInNodeFound && charsMatchedInNodeFound <= len(current.key)
+//@   loop 1: invariant stack: stackOK(c, path) && stackMono(c) && stackTop(c, paramCnt)
+//@   loop 1: invariant tsr-n: (tsr ==> n != nil) && (n != nil ==> n.route != nil)
+//@   loop 1: invariant no-wrap: paramCnt <= charsMatched
+//@   loop 2: invariant current != nil && 0 <= charsMatched && charsMatched <= len(path) && 0 <= i && i == charsMatchedInNodeFound && i <= len(current.key) && paramCnt <= len(*c.params)
+//@   loop 2: invariant pkc: paramKeyCnt == cnt(current.key, charsMatchedInNodeFound) && paramKeyCnt <= len(current.params)
+//@   loop 2: invariant stack: stackOK(c, path) && stackMono(c) && stackTop(c, paramCnt)
+//@   loop 2: invariant tsr-n: (tsr ==> n != nil) && (n != nil ==> n.route != nil)
+//@   loop 2: invariant no-wrap: paramCnt <= charsMatched
+//@   loop 3: invariant current != nil && 0 <= startPath && startPath <= charsMatched && charsMatched <= len(path) && inode != nil && subCtx != nil && subCtx != c && subCtx.params != nil && subCtx.tsrParams != nil && subCtx.skipNds != nil && paramCnt <= len(*c.params)
+//@   loop 3: invariant pkc: paramKeyCnt < len(current.params) && 0 <= charsMatchedInNodeFound && charsMatchedInNodeFound <= len(current.key)
+//@   loop 3: invariant stack: stackOK(c, path) && stackMono(c) && stackTop(c, paramCnt)
+//@   loop 3: invariant tsr-n: (tsr ==> n != nil) && (n != nil ==> n.route != nil)
+//@   loop 3: invariant no-wrap: paramCnt <= charsMatched
+//@   loop 4: invariant current != nil && 0 <= charsMatched && charsMatched < len(path) && 0 <= i#2 && i#2 <= len(current.childKeys) && idx#5 == -1 && paramCnt <= len(*c.params) && 0 <= charsMatchedInNodeFound && charsMatchedInNodeFound <= len(current.key)
+//@   loop 4: invariant stack: stackOK(c, path) && stackMono(c) && stackTop(c, paramCnt)
+//@   loop 4: invariant tsr-n: (tsr ==> n != nil) && (n != nil ==> n.route != nil)
+//@   loop 4: invariant no-wrap: paramCnt <= charsMatched
